@@ -125,7 +125,7 @@ example : den 8 exUnion (.ref "p" "AOrB" {}) (.obj [("kind", .str "b")]) = true 
 
 /-! ## (c) pass widening through the regenerated Go chain -/
 
-open Cog.Passes Cog.Gen.Chains
+open Cog.Passes Cog.Gen.Chains Cog.Sem.Src
 
 /-- the FULL statement of (c): for every pre-chain IR the front-ends can produce, every document of
     the source-side language of a named object belongs to `den` of the same object after the Go
